@@ -189,6 +189,49 @@ def tx_deser(tx_: bytes, include_raw: bool = False) -> typing.Tuple[dict, bytes]
     return tx_dict, tx_prime
 
 
+def legacy_message(
+    txins: typing.List[bytes],
+    txin_index: int,
+    txouts: typing.List[bytes],
+    version: int = 1,
+    locktime: int = 0,
+    sighash_flag: int = 1,
+) -> bytes:
+    """
+    Message to sign (sans sighash flag) for a non-witness input, i.e. the modified
+    transaction copy of the original signature hash algorithm
+    https://en.bitcoin.it/wiki/OP_CHECKSIG
+    Args:
+        txins: list[bytes], inputs. The input being signed carries the script being
+            signed (e.g. the scriptpubkey or redeem script) in place of its scriptsig
+        txin_index: int, index of the input being signed
+        txouts: list[bytes], outputs
+        version: int, version
+        locktime: int, locktime
+        sighash_flag: int, sighash flag
+    """
+    sighash_type = sighash_flag & 0x1F
+    anyone_can_pay = sighash_flag & 0x80
+    inputs = []
+    for i, txin_ in enumerate(txins):
+        if i == txin_index:
+            inputs.append(txin_)
+        elif not anyone_can_pay:
+            # scripts of the other inputs are blanked,
+            # their sequence is zeroed for SIGHASH_NONE and SIGHASH_SINGLE
+            sequence = b"\x00" * 4 if sighash_type in [0x02, 0x03] else txin_[-4:]
+            inputs.append(txin(txin_[:36], b"", sequence=sequence))
+    if sighash_type == 0x02:
+        outputs = []
+    elif sighash_type == 0x03:
+        if txin_index >= len(txouts):
+            raise ValueError("SIGHASH_SINGLE input has no output of the same index")
+        outputs = [txout(2**64 - 1, b"")] * txin_index + [txouts[txin_index]]
+    else:
+        outputs = txouts
+    return tx(inputs, outputs, version=version, locktime=locktime)
+
+
 def coinbase_txin(
     coinbase_script: bytes,
     sequence: bytes = b"\xff\xff\xff\xff",
@@ -471,26 +514,48 @@ def send_tx(
             ]
         else:
             # p2sh / p2pk / p2pkh / multisig
-            msg = tx_
-            signatures = [bits.sig(key, msg, sighash_flag=sighash_flag) for key in keys]
+            msgs = [
+                legacy_message(
+                    txins,
+                    txin_index,
+                    txouts,
+                    version=version,
+                    locktime=locktime,
+                    sighash_flag=sighash_flag,
+                )
+                for txin_index in range(len(txins))
+            ]
+            signatures = [
+                [bits.sig(key, msg, sighash_flag=sighash_flag) for key in keys]
+                for msg in msgs
+            ]
 
-        # form final scriptsig / witnesses
+        # form final scriptsigs / witnesses
+        sender_scriptsigs = [sender_scriptsig] * len(txins)
         if addr_types[0] == "p2pk":
-            sender_scriptsig = bits.script.script([signatures[0].hex()])
+            sender_scriptsigs = [
+                bits.script.script([signatures[i][0].hex()]) for i in range(len(txins))
+            ]
             sender_witnesses = []
         elif addr_types[0] == "multisig":
-            sender_scriptsig = bits.script.script(
-                ["OP_0"] + [signature.hex() for signature in signatures]
-            )
+            sender_scriptsigs = [
+                bits.script.script(
+                    ["OP_0"] + [signature.hex() for signature in signatures[i]]
+                )
+                for i in range(len(txins))
+            ]
             sender_witnesses = []
         elif addr_types[0] == "p2pkh":
             compressed = True if datums[0] else False
-            sender_scriptsig = bits.script.script(
-                [
-                    signatures[0].hex(),
-                    bits.keys.pub(keys[0], compressed=compressed).hex(),
-                ]
-            )
+            sender_scriptsigs = [
+                bits.script.script(
+                    [
+                        signatures[i][0].hex(),
+                        bits.keys.pub(keys[0], compressed=compressed).hex(),
+                    ]
+                )
+                for i in range(len(txins))
+            ]
             sender_witnesses = []
         elif addr_types[0] in ["p2wpkh", "p2sh-p2wpkh"]:
             sender_witnesses = [
@@ -511,9 +576,14 @@ def send_tx(
                 script_args = []
 
             if addr_types[0] == "p2sh":
-                script_args += [signature.hex() for signature in signatures]
-                script_args += [redeem_script.hex()]
-                sender_scriptsig = bits.script.script(script_args)
+                sender_scriptsigs = [
+                    bits.script.script(
+                        script_args
+                        + [signature.hex() for signature in signatures[i]]
+                        + [redeem_script.hex()]
+                    )
+                    for i in range(len(txins))
+                ]
                 sender_witnesses = []
             elif addr_types[0] in ["p2wsh", "p2sh-p2wsh"]:
                 sender_witnesses = [
@@ -527,11 +597,11 @@ def send_tx(
                 ]
 
         txins_prime = []
-        for txi in txins:
+        for i, txi in enumerate(txins):
             txin_deserialized, _ = txin_deser(txi)
             txid = bytes.fromhex(txin_deserialized["txid"])
             vout = txin_deserialized["vout"]
-            txins_prime.append(txin(outpoint(txid, vout), sender_scriptsig))
+            txins_prime.append(txin(outpoint(txid, vout), sender_scriptsigs[i]))
         tx_ = tx(
             txins_prime,
             txouts,
